@@ -49,7 +49,7 @@ def exec_selector(plan):
         kind = ["1-step Progress", "Monotonic Progress", "Best Reward", "Diversity"][plan["named_index"] % 4]
     n = plan["n_tasks"]
     site = kind
-    tasks = np.arange(n)
+    tasks = np.asarray(plan.get("tasks") or list(range(n)))
     B, g, z = plan["upper_bound"], plan["gamma"], plan["zeta"]
     ref = None
     if kind == "RoundRobin":
@@ -86,6 +86,12 @@ def exec_selector(plan):
                             res.probe("protocol_misuse_rejected")
                             break  # the property promises nothing about the selector's state after a rejected misuse
                     a = int(sel.select())
+                    if a not in tasks.tolist():
+                        res.violate("C11.g", site, f"op {i}: selected task id {a} is not one of the selector's tasks {tasks.tolist()}")
+                        return res
+                    a = tasks.tolist().index(a)
+                    if list(tasks) != list(range(n)):
+                        res.fault("non_identity_task_ids")
                 if not (0 <= a < n):
                     res.violate("C11.g", site, f"op {i}: selected task id {a} outside 0..{n - 1}")
                     return res
@@ -417,7 +423,10 @@ def make_plan(rng, index):
             else:
                 ops.append(["select"])
                 ops.append(["feedback", rng.choice([rng.uniform(-5, 5), 0.0, 1.0, 1.0, -100.0, 100.0])])
-        return {"sched_kind": "selector", "selector": kind, "named_index": rng.randrange(8), "n_tasks": n, "ops": ops,
+        tasks = None
+        if kind != "DUCB" and rng.random() < 0.4:
+            tasks = sorted(rng.sample(range(0, 3 * n + 2), n))
+        return {"sched_kind": "selector", "selector": kind, "named_index": rng.randrange(8), "n_tasks": n, "ops": ops, "tasks": tasks,
                 "upper_bound": rng.choice([1.0, 10.0, 100.0]), "gamma": rng.choice([0.5, 0.9, 0.95, 0.99, 1.0]), "zeta": rng.choice([1e-8, 0.002, 0.5])}
     if r == 5:
         nS, nA = rng.choice([2, 4]), rng.choice([2, 3])
